@@ -110,7 +110,7 @@ func main() {
 		res := runJob(prog, job, *verbose)
 		results = append(results, res)
 		if *verbose {
-			fmt.Fprintf(os.Stderr, "%s %s: paths=%d ok=%d viol=%d aborts=%v wall=%.1fs queries=%d\n", job.Harness, job.Label, res.Paths, res.PathsOK, len(res.Violations), res.Aborts, res.WallS, res.Queries)
+			fmt.Fprintf(os.Stderr, "%s %s: paths=%d ok=%d ended=%d viol=%d aborts=%v wall=%.1fs queries=%d %s %v\n", job.Harness, job.Label, res.Paths, res.PathsOK, res.PathsAssume, len(res.Violations), res.Aborts, res.WallS, res.Queries, res.Error, res.EngineErrs)
 		}
 	}
 	_ = pkgs
